@@ -27,7 +27,7 @@ TINY = {
   (cell mid (cellType GENERIC) (view netlist (viewType NETLIST) (interface (port m (direction INPUT)))))
   (cell top (cellType GENERIC) (view netlist (viewType NETLIST)
    (interface (port a (direction INPUT)) (port (array (rename b "b[1:0]") 2) (direction OUTPUT)))
-   (contents (instance u1 (viewRef netlist (cellRef BUF (libraryRef prims))) (property INIT (string "x")))
+   (contents (instance u1 (viewRef netlist (cellRef BUF (libraryRef prims))) (property INIT (string "00112233445566778899AABBCCDDEEFF00112233445566778899aabbccddeeff")))
     (instance u3 (viewRef netlist (cellRef mid (libraryRef work))))
     (instance u4 (viewRef netlist (cellRef mid)))
     (instance (rename u2 "u[2]") (viewRef netlist (cellRef BUF (libraryRef prims))))
@@ -152,7 +152,28 @@ def exhaustive(fmt, text):
         out.append((''.join(toks[:k]), 'truncate', k))
         out.append((''.join(toks[:k] + toks[k + 1:]), 'delete', k))
         out.append((''.join(toks[:k + 1] + [' ', toks[k]] + toks[k + 1:]), 'duplicate', k))
+    # damage inside a quoted string: the file ends in the middle of it / a character outside the accepted set
+    for k in idx:
+        t = toks[k]
+        if len(t) > 3 and t[0] == '"' and t[-1] == '"':
+            cut = len(t) - 2
+            out.append((''.join(toks[:k]) + t[:cut], 'truncate-in-string', k))
+            out.append((''.join(toks[:k] + [t[:cut] + '\u00e9' + t[cut:]] + toks[k + 1:]), 'garbage-in-string', k))
     if fmt == 'edif':
+        # duplication of a whole parenthesised construct (instance, net, port, cell, property ...)
+        for k in idx:
+            if toks[k] == '(':
+                depth, j = 0, k
+                while j < len(toks):
+                    if toks[j] == '(':
+                        depth += 1
+                    elif toks[j] == ')':
+                        depth -= 1
+                        if depth == 0:
+                            break
+                    j += 1
+                if j < len(toks) and j - k < 120:
+                    out.append((''.join(toks[:j + 1] + [' '] + toks[k:j + 1] + toks[j + 1:]), 'duplicate-construct', k))
         for r in idx:
             if toks[r] in REF_WORDS or toks[r] == 'member':
                 j = next((x for x in idx if x > r and toks[x] not in '()'), None)
@@ -210,6 +231,20 @@ def wf_returned(n, w):
     if not isinstance(n, sdn.ir.Netlist):
         return ['parse returned %r' % type(n).__name__]
     bad += elab.wf_netlist(n)[:3]
+    # a reader builds the netlist from nothing: an instance that references one of its cells without being placed
+    # in the netlist (child of a cell or top instance) is a leftover of a refused construct - half-built
+    placed = set()
+    if n.top_instance is not None:
+        placed.add(id(n.top_instance))
+    for lib in n.libraries:
+        for d in lib.definitions:
+            placed.update(id(c) for c in d.children)
+    for lib in n.libraries:
+        for d in lib.definitions:
+            for r in d.references:
+                if id(r) not in placed:
+                    bad.append('definition %r is referenced by an instance %r that is not part of the returned netlist' % (d.name, r.name))
+                    break
     if len(w.objs) < 4000:
         bad += ir_oracles.inv1(w)[:2] + ir_oracles.inv2(w)[:2]
     return bad
